@@ -3,6 +3,8 @@ package main
 import (
 	"fmt"
 	"reflect"
+	"strings"
+	"sync/atomic"
 	"time"
 
 	"google.golang.org/grpc/codes"
@@ -11,6 +13,7 @@ import (
 	"google.golang.org/protobuf/reflect/protoreflect"
 	"google.golang.org/protobuf/types/known/fieldmaskpb"
 
+	"github.com/smart-core-os/sc-golang/internal/verifhook"
 	"github.com/smart-core-os/sc-golang/verifharness/cmd/c07/pbgen"
 	"github.com/smart-core-os/sc-golang/verifharness/lib"
 )
@@ -177,6 +180,14 @@ func (k *keyedSession) get(it *item, mask *fieldmaskpb.FieldMask) {
 }
 
 func (k *keyedSession) update(it *item) {
+	req, p, op := k.prepUpdate(it)
+	out, pm := k.session.call("Update"+k.t.X, req)
+	k.finishUpdate(it, p, op, out, pm)
+}
+
+// prepUpdate generates an Update request for the item; finishUpdate judges its outcome as one write of the item's
+// register as it is when the outcome is judged.
+func (k *keyedSession) prepUpdate(it *item) (proto.Message, proto.Message, string) {
 	s := k.session
 	p := k.payload(it.key)
 	req := proto.Clone(s.randomExtras()).ProtoReflect()
@@ -189,7 +200,11 @@ func (k *keyedSession) update(it *item) {
 	setMask(req, "update_mask", um)
 	op := fmt.Sprintf("Update%s(%s)", k.t.X, txt(req.Interface()))
 	reportProgress(progress{Sid: s.sid, Step: s.step, Op: op, Trace: tailTrace(s.trace, 12)})
-	out, pm := s.call("Update"+k.t.X, req.Interface())
+	return req.Interface(), p, op
+}
+
+func (k *keyedSession) finishUpdate(it *item, p proto.Message, op string, out []reflect.Value, pm string) {
+	s := k.session
 	if pm != "" {
 		s.obs("updpanic", s.violate("Update/panic", "Update panicked instead of returning a value or a status", "a response or an error status", pm))
 		return
@@ -214,17 +229,159 @@ func (k *keyedSession) update(it *item) {
 	prev := it.cur
 	it.cur = proto.Clone(got)
 	s.noteWrite(p, prev, it.cur)
+	k.announce(it, it.cur, prev)
+	s.obs(fmt.Sprintf("kupdok %d %d", it.kid, s.id(got)), "ok")
+	k.drainAll()
+}
+
+// announce: the event of a write of the item (value v) reaches the item's open streams, which last showed `shown`.
+func (k *keyedSession) announce(it *item, v, shown proto.Message) {
+	s := k.session
 	for i, st := range s.streams {
 		if st.closed || k.streamOf[i] != it {
 			continue
 		}
-		s.fact(st.mask, it.cur)
-		s.fact(st.mask, prev)
-		w := project(st.mask, it.cur)
-		st.queue = append(st.queue, expect{val: w, must: !proto.Equal(w, project(st.mask, prev)) && st.established})
+		s.fact(st.mask, v)
+		s.fact(st.mask, shown)
+		w := project(st.mask, v)
+		st.queue = append(st.queue, expect{val: w, must: !proto.Equal(w, project(st.mask, shown)) && st.established})
 	}
-	s.obs(fmt.Sprintf("kupdok %d %d", it.kid, s.id(got)), "ok")
+}
+
+// twoWriters: two Updates of one item overlap between Collection.Update's store and its send (see duel.go): writer 1
+// is held at coll.update.beforeSend, writer 2 runs to completion, writer 1 is released. Both must be answered and
+// both must appear on the item's streams; the item ends on writer 2's value.
+func (k *keyedSession) twoWriters(it *item) {
+	s := k.session
+	req1, p1, op1 := k.prepUpdate(it)
+	req2, p2, op2 := k.prepUpdate(it)
+	var armed atomic.Bool
+	armed.Store(true)
+	parked, release := make(chan struct{}), make(chan struct{})
+	heldAt := ""
+	verifhook.Set(func(point string) {
+		if (point != "value.set.beforeSend" && point != "coll.update.beforeSend") || !armed.CompareAndSwap(true, false) {
+			return
+		}
+		heldAt = point
+		close(parked)
+		select {
+		case <-release:
+		case <-time.After(5 * time.Second):
+		}
+	})
+	defer verifhook.Set(nil)
+	done1, done2 := make(chan callRes, 1), make(chan callRes, 1)
+	go func() {
+		out, pm := s.call("Update"+k.t.X, req1)
+		done1 <- callRes{out, pm}
+	}()
+	var r1 callRes
+	select {
+	case <-parked:
+	case r1 = <-done1:
+		// no store/send window reached (rejected before storing): two ordinary Updates
+		armed.Store(false)
+		s.mon.Count("duel-sequential")
+		k.finishUpdate(it, p1, op1, r1.out, r1.pm)
+		if !s.failed {
+			out, pm := s.call("Update"+k.t.X, req2)
+			k.finishUpdate(it, p2, op2, out, pm)
+		}
+		return
+	case <-time.After(3 * time.Second):
+		s.obs("updpanic", s.violate("Update/hung", "Update did not return within 3 s", "a response", "nothing"))
+		return
+	}
+	go func() {
+		out, pm := s.call("Update"+k.t.X, req2)
+		done2 <- callRes{out, pm}
+	}()
+	var r2 callRes
+	select {
+	case r2 = <-done2:
+	case <-time.After(250 * time.Millisecond):
+		close(release)
+		<-done1
+		select {
+		case <-done2:
+		case <-time.After(3 * time.Second):
+		}
+		s.mon.Count("duel-blocked:" + k.t.key())
+		s.failed = true // void: the session ends here, nothing is judged
+		for i := range s.streams {
+			if !s.streams[i].closed {
+				s.takeAllQuiet(i, 20*time.Millisecond)
+			}
+		}
+		return
+	}
+	op2 += " [while an earlier Update of the item is held between storing and announcing its value]"
+	v2, ok2 := okResponse(r2)
+	if ok2 {
+		k.finishUpdate(it, p2, op2, r2.out, r2.pm)
+		if !s.failed {
+			k.get(it, nil)
+		}
+	} else if r2.pm != "" {
+		k.finishUpdate(it, p2, op2, r2.out, r2.pm)
+	} else {
+		err, _ := r2.out[1].Interface().(error)
+		s.trace = append(s.trace, stepDesc{s.step, op2, "error: " + status.Code(err).String()})
+		s.mon.Count("update-error:" + status.Code(err).String())
+		s.obs("upderr", "ok")
+		k.drainAll()
+	}
+	close(release)
+	select {
+	case r1 = <-done1:
+	case <-time.After(3 * time.Second):
+		s.obs("updpanic", s.violate("Update/hung", "Update did not return within 3 s of being released", "a response", "nothing"))
+		return
+	}
+	if s.failed {
+		return
+	}
+	op1 += " [held between storing and announcing its value while the Update above ran]"
+	v1, ok1 := okResponse(r1)
+	if !ok1 || !ok2 {
+		k.finishUpdate(it, p1, op1, r1.out, r1.pm)
+		s.mon.Count("duel-one-writer")
+		return
+	}
+	s.trace = append(s.trace, stepDesc{s.step, op1, txt(v1)})
+	s.mon.Count("update-ok")
+	s.mon.Count("duel-forced")
+	if !proto.Equal(v1, v2) {
+		s.mon.Count("duel-forced-distinct")
+	}
+	k.announce(it, v1, v2)
+	s.obs(fmt.Sprintf("kupdlate %d %d", it.kid, s.id(v1)), "ok")
 	k.drainAll()
+	if !s.failed {
+		k.get(it, nil)
+	}
+	if s.failed {
+		return
+	}
+	// the item's streams against the item's register, both writers having returned (duel.go: the recorded finding)
+	site := strings.TrimSuffix(heldAt, ".beforeSend")
+	verdict := "ok"
+	for i, st := range s.streams {
+		on := k.streamOf[i] // (every stream against its own item's register, as the acceptor's quiesce does)
+		if st.closed || !st.established || on == nil || on.cur == nil {
+			continue
+		}
+		s.fact(st.mask, on.cur)
+		if want := project(st.mask, on.cur); verdict == "ok" && (st.lastSeen == nil || !proto.Equal(st.lastSeen, want)) {
+			s.mon.Violate("C14/resource/"+site+"/two-writers/stream-left-on-overtaken-value",
+				"two Updates of one collection item overlapped between store and send: both were answered OK and both reached the item's stream, but in the order of the announcements, so the stream ends on the overtaken value while Get returns the later one",
+				s.input(s.step+1), fmt.Sprintf("stream#%d ends on the item's value %s", i, txt(want)), fmt.Sprintf("stream#%d ended on %s", i, txt(st.lastSeen)))
+			s.failed = true
+			verdict = "reject:Pull/stream-does-not-end-on-register"
+		}
+	}
+	s.obs("quiesce", verdict)
 }
 
 // drainAll drains every stream: the streams of the written id get what they are owed, the streams of every
@@ -346,7 +503,25 @@ func runKeyedSession(t triple, sid sessionID, mon *lib.Monitor) (lines, verdicts
 	k.nextKid++
 	ghost := &item{key: "no-such-item", kid: k.nextKid}
 	s.step = -1
-	k.create()
+	extra := rowExtras[t.Row.rowKey()]
+	if extra.Initial != nil {
+		// the model starts with records: each is a register holding the configured value
+		for _, m := range extra.Initial() {
+			k.nextKid++
+			it := &item{key: keyOf(m, t.keyField), kid: k.nextKid, cur: proto.Clone(m)}
+			k.items = append(k.items, it)
+			s.trace = append(s.trace, stepDesc{s.step, "model started with", txt(m)})
+			s.obs(fmt.Sprintf("kupdok %d %d", it.kid, s.id(m)), "ok")
+		}
+		for _, it := range k.items {
+			if !s.failed {
+				k.get(it, nil)
+			}
+		}
+	}
+	if !extra.NoCreate {
+		k.create()
+	}
 	live := func() []*item {
 		var out []*item
 		for _, it := range k.items {
@@ -366,11 +541,15 @@ func runKeyedSession(t triple, sid sessionID, mon *lib.Monitor) (lines, verdicts
 		}
 		switch {
 		case x < 3:
-			if len(ls) < 3 {
+			if len(ls) < 3 && !extra.NoCreate {
 				k.create()
 			}
-		case x < 10:
+		case x < 8 || (x < 10 && sid.Seq%3 != 2):
 			k.update(ls[s.r.Intn(len(ls))])
+		case x < 10:
+			// every third session: two overlapping writers of one item (such a session ends at the recorded finding
+			// .../two-writers/stream-left-on-overtaken-value as soon as a stream was open on the item)
+			k.twoWriters(ls[s.r.Intn(len(ls))])
 		case x < 13:
 			it, m := ls[s.r.Intn(len(ls))], s.randMask(t.resource, 40, true)
 			k.get(it, m)
